@@ -219,47 +219,77 @@ example : CPyTagged_Remainder 18446744073709551602#64 4#64 = .fast 2#64 := by de
 example : CPyTagged_Remainder 14#64 18446744073709551612#64 = .fast 18446744073709551614#64 := by decide  -- 7 % -2 = -1
 example : CPyTagged_Remainder 9223372036854775808#64 18446744073709551614#64 = .fast 0#64 := by decide  -- -2^62 % -1 = 0
 
-/-! ## `&`, `|`, `^` (two's complement; `and64/or64/xor64` = the 64-bit operation on the values) -/
+/-! ## `&`, `|`, `^` (Python's operators on unbounded two's-complement integers: `Tagged.pyAnd/pyOr/pyXor`) -/
 
 theorem and_fast_correct (l r v : BitVec 64) (h : CPyTagged_And l r = .fast v) :
-    isShort l ∧ isShort r ∧ isShort v ∧ sval v = and64 (sval l) (sval r) := by
+    isShort l ∧ isShort r ∧ isShort v ∧ sval v = pyAnd (sval l) (sval r) := by
   rw [and_eq] at h
   obtain ⟨hc, rfl⟩ := fast_of_ite h
-  exact ⟨hc.1, hc.2, and_val l r hc⟩
+  refine ⟨hc.1, hc.2, (and_val l r hc).1, ?_⟩
+  rw [(and_val l r hc).2, and64_eq_pyAnd _ _ (fits_range _ (short_fits l hc.1)) (fits_range _ (short_fits r hc.2))]
 
 theorem and_slow_iff (l r : BitVec 64) : (CPyTagged_And l r).isSlow = true ↔ ¬ (isShort l ∧ isShort r) := by
   rw [and_eq]; exact isSlow_ite
 
+theorem and_total (V : Valuation) (l r : BitVec 64) :
+    denoteInt V (CPyTagged_And l r) = .int (pyAnd (V.val l) (V.val r)) := by
+  rw [and_eq]
+  split
+  · rename_i hc
+    obtain ⟨h1, h2⟩ := and_val l r hc
+    rw [denoteInt_fast V _ h1, h2, val_short V l hc.1, val_short V r hc.2,
+      and64_eq_pyAnd _ _ (fits_range _ (short_fits l hc.1)) (fits_range _ (short_fits r hc.2))]
+  · simp [denoteInt, denoteCall, slowSpec]
+
 theorem or_fast_correct (l r v : BitVec 64) (h : CPyTagged_Or l r = .fast v) :
-    isShort l ∧ isShort r ∧ isShort v ∧ sval v = or64 (sval l) (sval r) := by
+    isShort l ∧ isShort r ∧ isShort v ∧ sval v = pyOr (sval l) (sval r) := by
   rw [or_eq] at h
   obtain ⟨hc, rfl⟩ := fast_of_ite h
-  exact ⟨hc.1, hc.2, or_val l r hc⟩
+  refine ⟨hc.1, hc.2, (or_val l r hc).1, ?_⟩
+  rw [(or_val l r hc).2, or64_eq_pyOr _ _ (fits_range _ (short_fits l hc.1)) (fits_range _ (short_fits r hc.2))]
 
 theorem or_slow_iff (l r : BitVec 64) : (CPyTagged_Or l r).isSlow = true ↔ ¬ (isShort l ∧ isShort r) := by
   rw [or_eq]; exact isSlow_ite
 
+theorem or_total (V : Valuation) (l r : BitVec 64) :
+    denoteInt V (CPyTagged_Or l r) = .int (pyOr (V.val l) (V.val r)) := by
+  rw [or_eq]
+  split
+  · rename_i hc
+    obtain ⟨h1, h2⟩ := or_val l r hc
+    rw [denoteInt_fast V _ h1, h2, val_short V l hc.1, val_short V r hc.2,
+      or64_eq_pyOr _ _ (fits_range _ (short_fits l hc.1)) (fits_range _ (short_fits r hc.2))]
+  · simp [denoteInt, denoteCall, slowSpec]
+
 theorem xor_fast_correct (l r v : BitVec 64) (h : CPyTagged_Xor l r = .fast v) :
-    isShort l ∧ isShort r ∧ isShort v ∧ sval v = xor64 (sval l) (sval r) := by
+    isShort l ∧ isShort r ∧ isShort v ∧ sval v = pyXor (sval l) (sval r) := by
   rw [xor_eq] at h
   obtain ⟨hc, rfl⟩ := fast_of_ite h
-  exact ⟨hc.1, hc.2, xor_val l r hc⟩
+  refine ⟨hc.1, hc.2, (xor_val l r hc).1, ?_⟩
+  rw [(xor_val l r hc).2, xor64_eq_pyXor _ _ (fits_range _ (short_fits l hc.1)) (fits_range _ (short_fits r hc.2))]
 
 theorem xor_slow_iff (l r : BitVec 64) : (CPyTagged_Xor l r).isSlow = true ↔ ¬ (isShort l ∧ isShort r) := by
   rw [xor_eq]; exact isSlow_ite
 
-/-- the slow call names the right operator character -/
-theorem bitwise_slow_call (l r : BitVec 64) (c : SlowCall) :
-    (CPyTagged_And l r = .slow c → c = ⟨"CPyTagged_BitwiseLongOp_", [l, r, 38#64], false⟩) ∧
-    (CPyTagged_Or l r = .slow c → c = ⟨"CPyTagged_BitwiseLongOp_", [l, r, 124#64], false⟩) ∧
-    (CPyTagged_Xor l r = .slow c → c = ⟨"CPyTagged_BitwiseLongOp_", [l, r, 94#64], false⟩) := by
-  refine ⟨?_, ?_, ?_⟩
-  · intro h; rw [and_eq] at h; exact (slow_of_ite h).2
-  · intro h; rw [or_eq] at h; exact (slow_of_ite h).2
-  · intro h; rw [xor_eq] at h; exact (slow_of_ite h).2
+theorem xor_total (V : Valuation) (l r : BitVec 64) :
+    denoteInt V (CPyTagged_Xor l r) = .int (pyXor (V.val l) (V.val r)) := by
+  rw [xor_eq]
+  split
+  · rename_i hc
+    obtain ⟨h1, h2⟩ := xor_val l r hc
+    rw [denoteInt_fast V _ h1, h2, val_short V l hc.1, val_short V r hc.2,
+      xor64_eq_pyXor _ _ (fits_range _ (short_fits l hc.1)) (fits_range _ (short_fits r hc.2))]
+  · simp [denoteInt, denoteCall, slowSpec]
+
+/-- fixed-width `& | ^` (any width, signed view): the register operation is Python's operator on the values -/
+theorem fixed_bitwise_exact {w : Nat} (a b : BitVec w) :
+    (a &&& b).toInt = pyAnd a.toInt b.toInt ∧ (a ||| b).toInt = pyOr a.toInt b.toInt ∧
+    (a ^^^ b).toInt = pyXor a.toInt b.toInt :=
+  ⟨toInt_and_pyAnd a b, toInt_or_pyOr a b, toInt_xor_pyXor a b⟩
 
 example : CPyTagged_And 18446744073709551614#64 12#64 = .fast 12#64 := by decide       -- -1 & 6 = 6
 example : CPyTagged_Xor 18446744073709551614#64 12#64 = .fast 18446744073709551602#64 := by decide  -- -1 ^ 6 = -7
+example : pyAnd (-1) 6 = 6 ∧ pyOr (-8) 3 = -5 ∧ pyXor (-1) 6 = -7 := by decide
 
 /-! ## `~` -/
 
